@@ -7,16 +7,17 @@ coordinates given, omitted (acord) or perturbed, with/without instrument heights
 further consistent observations added, for all four algorithms."""
 import sessions
 LEVEL = "exploration"
+NOISE = "{0}"
 
 
 def run(ctx):
     q = ctx.quick
-    r0, base = sessions.generate(ctx, "c06a", {"Templates": sessions.ALL_TEMPLATES, "MaxEdits": 0, "EditKinds": "{}",
-                                               "KeepNet": 41 if q else 5, "KeepEdit": 1, "Seed": ctx.seed})
+    r0, base = sessions.generate(ctx, "c06a", {"Templates": sessions.ALL_TEMPLATES, "NoiseSet": NOISE, "MaxEdits": 0, "EditKinds": "{}",
+                                               "KeepNet": 47 if q else 5, "KeepEdit": 1, "Seed": ctx.seed})
     base = [s for s in base if s["net"]["noise"] == 0]
-    r1, ed = sessions.generate(ctx, "c06b", {"Templates": sessions.ALL_TEMPLATES, "MaxEdits": 1,
+    r1, ed = sessions.generate(ctx, "c06b", {"Templates": sessions.ALL_TEMPLATES, "NoiseSet": NOISE, "MaxEdits": 1,
                                              "EditKinds": '{"OmitApprox", "PerturbApprox", "AttachHeights", "AddConsistentObs", "SetAlgorithm", "Translate"}',
-                                             "KeepNet": 211 if q else 41, "KeepEdit": 2 if q else 1, "Seed": ctx.seed})
+                                             "KeepNet": 211 if q else 47, "KeepEdit": 2 if q else 1, "Seed": ctx.seed})
     ed = [s for s in ed if s["net"]["noise"] == 0]
     ctx.note("SurveySession: %d consistent base networks, %d one-edit sessions" % (len(base), len(ed)))
     st0, _, _ = sessions.run_sessions(ctx, base, truth=True, laws=False)
